@@ -33,10 +33,26 @@ pub struct ObjString { }
 pub struct ObjClass { }
 pub struct ObjFunction { }
 pub struct ObjClosure { }
+// a module's globals: std HashMap<Gc<ObjString>, Value> by contract, keyed by the name string's cell identity (C11)
+pub struct AttrMap { pub ghost view: Map<int, Value> }
+impl AttrMap {
+    // `.get(&name).map(|&v| v)`
+    #[verifier::external_body]
+    fn get_copied(&self, k: &Gc<ObjString>) -> (r: Option<Value>)
+        ensures self.view.dom().contains(k.id()) ==> r == Some(self.view[k.id()]), !self.view.dom().contains(k.id()) ==> r is None,
+    { unimplemented!() }
+    #[verifier::external_body]
+    fn insert(&mut self, k: Gc<ObjString>, v: Value) -> (r: Option<Value>)
+        ensures final(self).view == old(self).view.insert(k.id(), v),
+            old(self).view.dom().contains(k.id()) ==> r == Some(old(self).view[k.id()]), !old(self).view.dom().contains(k.id()) ==> r is None,
+    { unimplemented!() }
+    #[verifier::external_body]
+    fn remove(&mut self, k: &Gc<ObjString>) -> (r: Option<Value>)
+        ensures final(self).view == old(self).view.remove(k.id())
+    { unimplemented!() }
+}
 #[verifier::external_body]
-pub struct AttrMap { _p: u8 }
-#[verifier::external_body]
-fn new_obj_string_value_map() -> AttrMap { unimplemented!() }
+fn new_obj_string_value_map() -> (r: AttrMap) ensures r.view == Map::<int, Value>::empty() { unimplemented!() }
 //@enum file=yarel/src/value.rs name=Value keep=ObjModule,ObjClosure,None other=Other
 impl Value {
     //@fn file=yarel/src/value.rs path=Value::try_as_obj_module ret=r
@@ -89,6 +105,7 @@ fn option_root_ref_as_gc(o: Option<&Root<RefCell<ObjModule>>>) -> (r: Option<Gc<
 
 pub struct Vm {
     pub class_store: ClassStore,
+    pub active_module: Gc<RefCell<ObjModule>>,
     pub modules: ModMap,
     pub ghost mods: Map<int, ObjModule>,
     pub ghost runs: Map<int, nat>,        // per path-string id: how many times a body for that path has been started
@@ -105,7 +122,7 @@ impl Vm {
     pub open spec fn wf(&self) -> bool {
         forall|k: int| self.modules.view.dom().contains(k) ==> self.mods.dom().contains(#[trigger] self.modules.view[k].id())
     }
-    pub open spec fn same_registry(&self, o: &Vm) -> bool { self.modules == o.modules && self.mods == o.mods && self.runs == o.runs && self.body_starts == o.body_starts }
+    pub open spec fn same_registry(&self, o: &Vm) -> bool { self.modules == o.modules && self.mods == o.mods && self.runs == o.runs && self.body_starts == o.body_starts && self.active_module == o.active_module }
     pub open spec fn same_env(&self, o: &Vm) -> bool { self.next_path == o.next_path && self.loader_result == o.loader_result && self.compiles == o.compiles }
     pub open spec fn runs_of(&self, k: int) -> nat { if self.runs.dom().contains(k) { self.runs[k] } else { 0 } }
 
@@ -131,7 +148,7 @@ impl Vm {
     #[verifier::external_body]
     fn module_content_mut(&mut self, g: Gc<RefCell<ObjModule>>) -> (r: &mut ObjModule)
         requires old(self).mods.dom().contains(g.id())
-        ensures *r == old(self).mods[g.id()], final(self).mods == old(self).mods.insert(g.id(), *final(r)),
+        ensures *r == old(self).mods[g.id()], final(self).mods == old(self).mods.insert(g.id(), *final(r)), final(self).active_module == old(self).active_module,
             final(self).modules == old(self).modules, final(self).runs == old(self).runs, final(self).stack == old(self).stack, final(self).raised == old(self).raised,
             final(self).body_starts == old(self).body_starts, old(self).same_env(final(self)),
     { unimplemented!() }
@@ -233,6 +250,38 @@ impl Vm {
     //@  requires old(self).stack[old(self).stack.len() - 2] matches Value::ObjModule(g) && old(self).mods.dom().contains(g.id())
     //@  ensures old(self).stack[old(self).stack.len() - 2] matches Value::ObjModule(g) && final(self).mods[g.id()].imported && final(self).mods[g.id()].path == old(self).mods[g.id()].path && (forall|i: int| old(self).mods.dom().contains(i) && i != g.id() ==> final(self).mods[i] == old(self).mods[i])
     //@  ensures final(self).modules == old(self).modules, final(self).stack == old(self).stack.drop_last()
+    //@end
+
+    // ---- module globals: GetGlobal / DefineGlobal / SetGlobal act on the ACTIVE module's own table and on nothing
+    // else ("never leak into or read from the importer's globals"); the name operand is the next string operand.
+    pub open spec fn globals_of_active(&self) -> Map<int, Value> { self.mods[self.active_module.id()].attributes.view }
+    pub open spec fn other_modules_untouched(&self, o: &Vm) -> bool {
+        &&& self.modules == o.modules && self.active_module == o.active_module
+        &&& forall|i: int| self.mods.dom().contains(i) && i != self.active_module.id() ==> o.mods.dom().contains(i) && o.mods[i] == self.mods[i]
+        &&& o.mods.dom().contains(self.active_module.id()) && o.mods[self.active_module.id()].imported == self.mods[self.active_module.id()].imported
+            && o.mods[self.active_module.id()].path == self.mods[self.active_module.id()].path
+    }
+    //@fn file=yarel/src/vm.rs path=Vm::get_global_impl ret=r
+    //@  rewrite R1
+    //@  subst "self .active_module .borrow() .attributes .get(&name) .map(|&v| v)" => "self.module_content(self.active_module).attributes.get_copied(&name)"
+    //@  requires old(self).mods.dom().contains(old(self).active_module.id())
+    //@  ensures final(self).mods == old(self).mods, final(self).modules == old(self).modules, final(self).active_module == old(self).active_module
+    //@  ensures @global_read_from_own_module_only old(self).globals_of_active().dom().contains(old(self).next_path) ==> r is Ok && final(self).stack == old(self).stack.push(old(self).globals_of_active()[old(self).next_path]) && final(self).raised == old(self).raised
+    //@  ensures @undefined_global_is_a_name_error !old(self).globals_of_active().dom().contains(old(self).next_path) ==> final(self).raised == Some(ErrorKind::NameError)
+    //@end
+    //@fn file=yarel/src/vm.rs path=Vm::define_global_impl
+    //@  subst "self.active_module .borrow_mut() .attributes .insert(name, value)" => "self.module_content_mut(self.active_module).attributes.insert(name, value)"
+    //@  requires old(self).mods.dom().contains(old(self).active_module.id()), old(self).stack.len() > 0
+    //@  ensures @global_defined_in_own_module_only final(self).globals_of_active() == old(self).globals_of_active().insert(old(self).next_path, old(self).stack.last()) && old(self).other_modules_untouched(final(self))
+    //@  ensures final(self).stack == old(self).stack.drop_last()
+    //@end
+    //@fn file=yarel/src/vm.rs path=Vm::set_global_impl ret=r
+    //@  rewrite R1
+    //@  subst "&mut self.active_module.borrow_mut().attributes" => "&mut self.module_content_mut(self.active_module).attributes"
+    //@  requires old(self).mods.dom().contains(old(self).active_module.id()), old(self).stack.len() > 0
+    //@  ensures @global_written_in_own_module_only old(self).other_modules_untouched(final(self))
+    //@  ensures old(self).globals_of_active().dom().contains(old(self).next_path) ==> r is Ok && final(self).globals_of_active() == old(self).globals_of_active().insert(old(self).next_path, old(self).stack.last()) && final(self).raised == old(self).raised && final(self).stack == old(self).stack
+    //@  ensures @assignment_to_undefined_global_is_a_name_error !old(self).globals_of_active().dom().contains(old(self).next_path) ==> final(self).globals_of_active() =~= old(self).globals_of_active() && final(self).raised == Some(ErrorKind::NameError)
     //@end
 }
 
